@@ -37,6 +37,10 @@ ALL_CALCS = [None, "vasp", "abinit", "qe", "wien2k", "elk", "siesta", "cp2k", "c
 def gen_cases(tier, seed):
     rng = np.random.default_rng([seed, 17])
     cases = []
+    for mode in MAGNETIC_MODES:
+        for ci, cell in enumerate(["afm_cr", "afm_nio", "fm_fe_tet"]):
+            cases.append({"kind": "structure", "mode": mode, "crystal": {"name": cell, "order": ["asis", "random", "interleave"][(ci + len(cases)) % 3], "order_seed": int(rng.integers(100))},
+                          "displaced": bool(ci == 1), "magnetic": True, "_cost": 2})
     cells = ["tric_ilv", "tric3", "tric2", "rutile", "rocksalt", "wurtzite", "perovskite", "mono_p", "zincblende", "fluorite", "hcp"]
     reps = 1 if tier == "quick" else 6
     for mode in MODES:
@@ -245,6 +249,12 @@ def adapt_and_read(mode, path, symbols):
         os.chdir(cwd)
 
 
+# interfaces whose structure files carry (collinear) initial moments AND whose reader reads the written file back (crystal writes ATOMSPIN into the
+# .d12 input but its reader parses CRYSTAL *output*, which the harness replaces by its own parser of the geometry block: no moments to compare)
+# (pwmat: get_pwmat_structure writes a 'magnetic' block but read_atom_config has no code for it - reading moments is not supported there)
+MAGNETIC_MODES = ("castep", "aims", "abacus")
+
+
 def compare_cells(orig, got, dec, mode):
     """Return list of (kind, msg). Order rule: preserved, or stable grouping by first appearance of species."""
     probs = []
@@ -279,6 +289,18 @@ def compare_cells(orig, got, dec, mode):
         if ok:
             matched = label
             break
+    if matched is not None and orig.magnetic_moments is not None and mode in MAGNETIC_MODES:
+        # magnetic moments (collinear) travel with their atom: same value, same sign, zero stays zero
+        order = list(range(len(sa))) if matched == "preserved" else grouped
+        ma = np.array(orig.magnetic_moments, float)
+        mb = got.magnetic_moments
+        if mb is None:
+            if np.abs(ma).max() > 0:
+                probs.append(("magnetic_moments", "magnetic moments %s were written but none came back" % np.round(ma, 4).tolist()[:8]))
+        else:
+            mb = np.array(mb, float)
+            if mb.shape != ma.shape or np.abs(mb - ma[order]).max() > 1e-4:
+                probs.append(("magnetic_moments", "magnetic moments written %s (in the order read back) but read %s" % (np.round(ma[order], 4).tolist()[:8], np.round(mb, 4).tolist()[:8])))
     if matched is None:
         # is it at least the same multiset (wrong documented order) or really a different crystal?
         used = set()
@@ -357,6 +379,10 @@ def run_case(c):
                 obs.setdefault("decimals_by_interface", {})[mode] = dec
                 for kind, msg in compare_cells(cl, got, dec, mode):
                     bad("structure_" + kind, "%s: %s: %s" % (mode, what, msg), **f2)
+                if cl.magnetic_moments is not None and mode in MAGNETIC_MODES:
+                    obs["magnetic_roundtrips"] = obs.get("magnetic_roundtrips", 0) + 1
+                    obs["magnetic_roundtrips_with_negative_and_zero"] = obs.get("magnetic_roundtrips_with_negative_and_zero", 0) + int(
+                        (np.array(cl.magnetic_moments) < 0).any() and (np.array(cl.magnetic_moments) == 0).any())
             key = "st|%s|%s|%s|%s" % (mode, c["crystal"]["name"], c["crystal"]["order"], c["crystal"].get("int_shift"))
             obs["iface_" + mode] = 1
             return {"viol": viol, "nontrivial": bool(len(cell) >= 2), "key": key, "obs": obs, "evals": len(targets),
